@@ -123,20 +123,26 @@ func forced(rng *hlib.Rng, rnd []byte, f func()) bool {
 // Verify_internal on the formatted message, and a public key re-decoded from its bytes.
 func verify3(o *hlib.Out, k *gkey, pkb []byte, ctx, msg, sig []byte) string {
 	mp := fmtMsg(ctx, msg)
-	pk, err := k.ps.par.DecodePublicKey(pkb)
-	if err != nil {
-		return "0"
-	}
-	a := v01(pk.Verify(msg, sig, ctx))
-	b := v01(pk.VerifVerifyInternal(mp, sig))
-	if a != b {
-		o.Violate("ML-DSA-%s: Verify (ctx API) = %s but Verify_internal = %s", k.ps.name, a, b)
-	}
-	if bytes.Equal(pkb, k.pkb) {
-		c := v01(k.pk.Verify(msg, sig, ctx))
-		if a != c {
-			o.Violate("ML-DSA-%s: verification with the decoded public key = %s, with the generated key object = %s", k.ps.name, a, c)
+	a := "0"
+	if p := hlib.Recover(func() {
+		pk, err := k.ps.par.DecodePublicKey(pkb)
+		if err != nil {
+			return
 		}
+		a = v01(pk.Verify(msg, sig, ctx))
+		b := v01(pk.VerifVerifyInternal(mp, sig))
+		if a != b {
+			o.Violate("ML-DSA-%s: Verify (ctx API) = %s but Verify_internal = %s", k.ps.name, a, b)
+		}
+		if bytes.Equal(pkb, k.pkb) {
+			c := v01(k.pk.Verify(msg, sig, ctx))
+			if a != c {
+				o.Violate("ML-DSA-%s: verification with the decoded public key = %s, with the generated key object = %s", k.ps.name, a, c)
+			}
+		}
+	}); p != "" {
+		o.Violate("ML-DSA-%s: verification PANICS (%s) on signature %s", k.ps.name, p, hlib.Tok(sig))
+		return "panic"
 	}
 	return a
 }
